@@ -2,10 +2,17 @@
 
 package main
 
-import "github.com/zen-eth/shisui/validation"
+import (
+	"github.com/zen-eth/shisui/history"
+	"github.com/zen-eth/shisui/validation"
+)
 
 func init() {
 	registry["constgen_header"] = func(c *Ctx) {
-		emitConsts(c, "header", validation.VerifConstantsHeader(), nil)
+		m := validation.VerifConstantsHeader()
+		for k, v := range history.VerifConstantsProver() {
+			m[k] = v
+		}
+		emitConsts(c, "header", m, nil)
 	}
 }
